@@ -101,7 +101,9 @@ def check_case(case, stats=None, K=oracle.K_QUICK):
             stats.discarded["reject:" + ("registers" if "out of registers" in res["error"]["description"] else oracle.norm_error(res["error"]["description"]))] += 1
         return
     recmap = diag.align(res["code"], res["_verif"]["instructions"])
-    ftab = func_table(main)
+    ftab = {}
+    for text in srcs.values():
+        ftab.update(func_table(text))
     # shapes of open findings give their witnesses a narrow signature (generated programs do not have them)
     suffix = oracle.shape_suffix(srcs)
     if opts.get("tail_call_optimization") and not tco_safe(main):
